@@ -289,7 +289,18 @@ def run_isolation(sources, refs, ops, case, res=None):
             si = a % len(sources)
             oi = 0 if code == 0 else b % len(OPTIONS)
             try:
-                # option values are built afresh for every call (as a caller would), never shared constants
+                # option values are built afresh for every call (as a caller would), never shared constants; directly
+                # before it the same source is parsed with a DIFFERENT value of the same shape, whose objects are gone
+                # by the time the second call builds its own
+                if oi and 'skip_envs' in OPTIONS[oi]:
+                    partners = [o for o in OPTIONS if 'skip_envs' in o and o is not OPTIONS[oi] and
+                                len(o['skip_envs']) == len(OPTIONS[oi]['skip_envs']) and o.get('tolerance') == OPTIONS[oi].get('tolerance')]
+                    if partners:
+                        try:
+                            TexSoup(sources[si], **fresh_options(partners[(a + b) % len(partners)]))
+                        except (EOFError, TypeError, AssertionError):
+                            pass
+                        flags.add('back-to-back-different-options')
                 soup = TexSoup(sources[si], **fresh_options(OPTIONS[oi]))
             except (EOFError, TypeError, AssertionError) as e:
                 if oi and (si, oi) in optrefs and optrefs[(si, oi)] != ('raise', type(e).__name__):
